@@ -76,7 +76,11 @@ Qed.
 
 (* ---------- PKESessionKeyV3.decrypt_sk ---------- *)
 Lemma refine_rsa_ct_padded v bits :
-  gen_rsa_ct_padded (to_mpibytes v) bits = zeros (bits / 8 - Z.of_nat (length (mpi_body v))) ++ mpi_body v.
+  gen_rsa_ct_padded (to_mpibytes v) bits = rsa_ct_padded ((bits + 7) / 8) v.
+Proof. reflexivity. Qed.
+(* ... which is what the model's decrypt_sk hands to the primitive *)
+Lemma refine_rsa_decrypt_m rsa_bits rsa_dec h v :
+  rsa_decrypt_m rsa_bits rsa_dec h v = of_opt EPrim (rsa_dec h (gen_rsa_ct_padded (to_mpibytes v) (rsa_bits h))).
 Proof. reflexivity. Qed.
 
 (* everything after the primitive call: same value, same exception class, for every octet string m.  The generated text
